@@ -10,6 +10,11 @@ func VerifBM25FParams() (k1 float64, w, b [4]float64) {
 	return p.k1, [4]float64{p.w.cmd, p.w.desc, p.w.keys, p.w.tags}, [4]float64{p.b.cmd, p.b.desc, p.b.keys, p.b.tags}
 }
 
+// VerifIsPipeline exposes the repository's own definition of "is a pipeline command" (the
+// eligibility predicate of the pipeline-only filter and of the pipeline boost) so that the
+// reference scan of the C03 check uses it as given instead of re-stating it.
+func VerifIsPipeline(cmd *Command) bool { return isPipelineCommand(cmd) }
+
 // VerifIndexParams returns the parameters stored in the live index of db (nil index: ok=false).
 func VerifIndexParams(db *Database) (k1 float64, w, b [4]float64, ok bool) {
 	if db == nil || db.uIndex == nil {
